@@ -543,7 +543,25 @@ func (r *ruleState) onQuiesceEnd(rounds int) {
 	if s.pendingWork() || s.sys == nil {
 		s.violate("C11.not_quiescent", P("C11", "C12"), "kernel", "queues not empty after the convergence window ["+s.cfgClass()+"]", "")
 	}
-	if s.bgEnabled("TimeoutPromises") {
+	// a schedule whose occurrences arrive about as fast as firing cycles creates, cycle after
+	// cycle, promises that are overdue the moment they are stored (their deadline counts from the
+	// occurrence it is still catching up with); when the time-out sweep's batch is not larger than
+	// what such schedules create per cycle the system is not quiet and the sweep (LIMIT without
+	// ORDER BY) is never ahead: convergence of promises is not judged then
+	fastCreators := 0
+	if s.bgEnabled("SchedulePromises") {
+		for _, sc := range last.Schedules {
+			if per := schedulePeriod(sc); per > 0 && per <= 2*step {
+				fastCreators++
+			}
+		}
+		if fastCreators > s.Cfg.ScheduleBatch {
+			fastCreators = s.Cfg.ScheduleBatch
+		}
+	}
+	if fastCreators > 0 && s.Cfg.PromiseBatch <= fastCreators {
+		s.Probes["promise_rate_too_high_skipped"]++
+	} else if s.bgEnabled("TimeoutPromises") {
 		for _, id := range tables.SortedKeys(last.Promises) {
 			p := last.Promises[id]
 			if p.State == 1 && p.Timeout <= now && (p.CreatedOn == nil || *p.CreatedOn <= now) {
